@@ -554,6 +554,23 @@ impl<'a> VisitMut for HofPass<'a> {
                 }
             }
         }
+        // E.map_err(Into::into) / E.map_err(From::from)  ==>  match E { Ok(v) => Ok(v), Err(e) => Err(From::from(e)) }
+        if let Expr::MethodCall(mc) = e {
+            if mc.method == "map_err" && mc.args.len() == 1 {
+                if let Expr::Path(pth) = &mc.args[0] {
+                    let t = tok(&pth.path);
+                    if t == "Into::into" || t == "From::from" {
+                        let recv = &mc.receiver;
+                        self.counter += 1;
+                        let v = quote::format_ident!("__fjx_v{}", self.counter);
+                        let er = quote::format_ident!("__fjx_e{}", self.counter);
+                        let new: Expr = parse_quote! { match (#recv) { Ok(#v) => Ok(#v), Err(#er) => Err(From::from(#er)) } };
+                        *e = new;
+                        self.log.push("R-HOF map_err(Into::into) spelled out".into());
+                    }
+                }
+            }
+        }
         // (option `boundmap`: every `.map(..)` in this function is core::ops::Bound::map)
         // E.map(|p| B) ==> match E { Bound::Included(p) => Bound::Included(B), Bound::Excluded(p) => Bound::Excluded(B), Bound::Unbounded => Bound::Unbounded }
         if self.boundmap {
